@@ -674,6 +674,7 @@ def run(ctx, rep):
         H.private_state(ctx, rep, "R16.3", cq_)
     _signal_shared_state(ctx, rep)
     _no_select_on_client_sockets(ctx, rep)
+    _accepted_sockets_blocking(ctx, rep)
 
 
 def _signal_shared_state(ctx, rep):
@@ -789,3 +790,42 @@ def _no_select_on_client_sockets(ctx, rep):
            "%d modules scanned" % n_mod if not bad else
            "%s calls `%s`: select() raises ValueError for a descriptor >= 1024, i.e. for every client accepted while about a "
            "thousand others are connected" % (bad[0][0], A.src(bad[0][1])[:60]), ctx.loc(bad[0][1]) if bad else None, kind="site")
+
+
+def _accepted_sockets_blocking(ctx, rep):
+    """R16.8: an accepted socket inherits the process-wide default timeout (socket.setdefaulttimeout) - and, on some platforms,
+    the listener's own time-out. SocketStream treats a timed-out send as a dead connection, so a well-behaved client that is
+    merely slow to drain a large reply would be disconnected in the middle of it. Server.accept therefore puts every accepted
+    socket into blocking mode before it is tracked or handed to the serving mechanism."""
+    rep.rule("R16.8", "every accepted client socket is put into blocking mode (no inherited OS time-out) before it is served")
+    f = ctx.func(SRV + ".Server.accept")
+    g = ctx.cfg(f)
+    rep.analysed(f, g)
+    acc = [n for n in g.live if n.ast is not None and n.kind == "stmt" and A.find_calls(n.ast, "self.listener.accept")]
+    hand = [n for n in g.live if n.ast is not None and n.kind == "stmt" and A.find_calls(n.ast, "self._accept_method")]
+    rep.floor("R16.8", "listener.accept() / hand-off sites in Server.accept", min(len(acc), len(hand)), 1)
+
+    def blocking(n):
+        if n.ast is None:
+            return False
+        for c in A.calls(n.ast):
+            if isinstance(c.func, ast.Attribute) and c.func.attr == "setblocking" and c.args and ctx.try_fold(c.args[0]) in (True, 1):
+                return True
+            if isinstance(c.func, ast.Attribute) and c.func.attr == "settimeout" and c.args and isinstance(c.args[0], ast.Constant) \
+                    and c.args[0].value is None:
+                return True
+        return False
+    mode = {n.id for n in g.live if blocking(n)}
+    wit = None
+    for a in acc:
+        for t, l in a.succ:
+            if l == "exc":
+                continue
+            p = Q.find_path_ef([t], lambda x: x in hand, lambda u, v, l2: l2 != "exc" and u.id not in mode, skip_first=False)
+            if p is not None and t.id not in mode:
+                wit = [a] + p
+    rep.ob("R16.8", "Server.accept: setblocking(True) lies on every path from accept() to the hand-off", bool(acc) and wit is None,
+           "the accepted socket is made blocking before _accept_method gets it" if wit is None else
+           "an accepted socket reaches _accept_method with whatever time-out it inherited (socket.setdefaulttimeout, the listener): "
+           "a send to a slow but well-behaved client times out and the connection is dropped mid-reply",
+           f.loc, witness=ctx.path(wit) if wit else None)
